@@ -192,8 +192,20 @@ func c22Check(c *vcore.Ctx, b *world.Backend, cc *c22Case, x *schedRun, choices 
 		names = append(names, op.Kind)
 	}
 	pair := strings.Join(names, "||")
+	// a violation that needs no preemption at all (the calls run one after the other) is a
+	// different finding from one that needs a particular interleaving
+	npre := 0
+	for _, d := range x.Decisions {
+		if d.Choice < len(d.Preempt) && d.Preempt[d.Choice] {
+			npre++
+		}
+	}
+	how := "interleaved"
+	if npre == 0 {
+		how = "sequential"
+	}
 	viol := func(sig, f string, a ...any) {
-		c.Violate("C22/"+pair+"/"+sig, fmt.Sprintf(f, a...)+" | threads="+vcore.JSON(cc.Ops)+" results="+c22Results(x, len(cc.Ops))+" schedule="+renderSchedule(x), rc)
+		c.Violate("C22/"+pair+"/"+how+"/"+sig, fmt.Sprintf(f, a...)+" | threads="+vcore.JSON(cc.Ops)+" results="+c22Results(x, len(cc.Ops))+" schedule="+renderSchedule(x), rc)
 	}
 	if x.Stuck != "" {
 		viol("call-never-returns", "%s", firstLine(x.Stuck))
